@@ -264,7 +264,7 @@ def w4(ctx):
 
 
 @rule("C17-Cl1", "C17", 4, "clear: the read-only test is the first branch and returns Err(ReadOnly); Memory::clear is called only on the writable path, and on every "
-      "writable path (C20: clear resets discarded and the list whatever the cursor is)", also=("C20",))
+      "writable path (C20, C10: clear resets discarded and the list whatever the cursor is - a sentinel that survives clear links segments of the old contents)", also=("C20", "C10"))
 def cl1(ctx):
     for fl in FLAVOURS:
         b = arena_fn(ctx, fl, "clear")
